@@ -468,5 +468,3 @@ func TestC29(t *testing.T) {
 		}
 	})
 }
-
-var _ = fmt.Sprint
